@@ -1,3 +1,7 @@
 import YorkieModel.Model.Time
 import YorkieModel.Driver.Proto
 import YorkieModel.Driver.TimeEngine
+import YorkieModel.Model.Crdt
+import YorkieModel.Driver.CrdtEngine
+import YorkieModel.Lemmas.VV
+import YorkieModel.Props.C06
